@@ -687,6 +687,33 @@ func (in *Interp) storeLV(st *State, l ast.Expr, lv *T, val *T) {
 	if in.H.Assign != nil && in.H.Assign(in, st, l, lv, val) {
 		return
 	}
+	// a field of a local struct value that is held as a literal term: update the literal
+	if sel, ok := unparen(l).(*ast.SelectorExpr); ok {
+		if id, ok := unparen(sel.X).(*ast.Ident); ok {
+			if o := in.C.Obj(id); o != nil {
+				if cur := st.Vars[o]; cur != nil && cur.Op == "lit" && !strings.HasPrefix(cur.Name, "[]") && !strings.HasPrefix(cur.Name, "map") {
+					n := *cur
+					n.str = ""
+					n.Args = nil
+					replaced := false
+					for _, a := range cur.Args {
+						if a.Op == "kv" && a.Name == sel.Sel.Name {
+							n.Args = append(n.Args, &T{Op: "kv", Name: a.Name, Args: []*T{val}})
+							replaced = true
+						} else {
+							n.Args = append(n.Args, a)
+						}
+					}
+					if !replaced {
+						n.Args = append(n.Args, &T{Op: "kv", Name: sel.Sel.Name, Args: []*T{val}})
+						sortKV(n.Args)
+					}
+					st.Vars[o] = &n
+					return
+				}
+			}
+		}
+	}
 	key := lv.String()
 	for k := range st.Mem {
 		if strings.HasPrefix(k, key+".") || strings.HasPrefix(k, key+"[") {
